@@ -24,10 +24,17 @@ class Program:
             if b.kind == 'Closure':
                 self.closures_of.setdefault(b.raw.get('parent'), []).append(p)
         self.adts = {a['path']: a for a in facts.get('adts', [])}
+        # initialisers of the crate's named constants, as bodies of their own (value: const_term(path))
+        self.consts = {c['path']: Body(c, self) for c in facts.get('consts', [])}
         self.impls = facts.get('impls', [])
 
     def body(self, path):
         return self.bodies.get(path)
+
+    def const_term(self, path):
+        """value term of a named constant of the crate (its initialiser's return value), or None"""
+        c = self.consts.get(path)
+        return strip(c.return_term()) if c is not None else None
 
     def find(self, suffix=None, impl_self=None, impl_trait=None, assoc=None, kind=None):
         out = []
